@@ -1084,4 +1084,45 @@ Definition checked_next_multiple_of (dbg : bool) (w N : Z) (fuel : nat) (self : 
     )
   end.
 
+(* src/buint/cast.rs: fn cast_up *)
+Definition cast_up (w N : Z) (fuel : nat) (M : Z) (self : list Z) (digit : Z) : res (list Z) :=
+  let digits := (repeat digit (Z.to_nat M)) in
+  t1' <- usub M N ;;
+  let i := t1' in
+  t5' <- while_loop (R := list Z) fuel
+    (fun '(digits, i) => (i <? M))
+    (fun '(digits, i) =>
+      t2' <- usub M N ;;
+      t3' <- usub i t2' ;;
+      let index := t3' in
+      t4' <- arr_get self index ;;
+      digits <- arr_set digits index t4' ;;
+      let i := (i + 1) in
+      Done (Continue (digits, i)))
+    (digits, i) ;;
+  match t5' with
+  | Exited (digits, i) =>
+      t7' <- from_digits w M fuel digits ;;
+      Done t7'
+  | Returned t6' => Done t6'
+  end.
+
+(* src/buint/cast.rs: fn cast_down *)
+Definition cast_down (w N : Z) (fuel : nat) (M : Z) (self : list Z) : res (list Z) :=
+  let out := (ZERO (Z.to_nat M)) in
+  let i := 0 in
+  t2' <- while_loop (R := list Z) fuel
+    (fun '(out, i) => (i <? M))
+    (fun '(out, i) =>
+      t1' <- arr_get self i ;;
+      out <- arr_set out i t1' ;;
+      let i := (i + 1) in
+      Done (Continue (out, i)))
+    (out, i) ;;
+  match t2' with
+  | Exited (out, i) =>
+      Done out
+  | Returned t3' => Done t3'
+  end.
+
 End Loops.
